@@ -35,6 +35,30 @@ Proof.
   repeat split; auto. lia.
 Qed.
 
+(* ... more precisely: the restarted instance IS the old one up to the forkless-cause cache, the build
+   counter and the votes / decisions of the election (same frame to decide, same validators) *)
+Theorem restart_state_shape es st r st' :
+  bootstrap cap end_block es (persist st) = (r, [], st') ->
+  exists c n el, st' = set_el (set_fcc (set_ctr st n) c) el /\
+                 el_frame el = l_ldf st + 1 /\ el_vals el = l_vals st.
+Proof.
+  intros E. destruct (restart_keeps_databases es st r st' E) as (A1&A2&A3&A4&A5&A6&I).
+  assert (Hv : el_vals (l_el st') = l_vals st).
+  { rewrite bootstrap_is_revote in E.
+    assert (G : forall fuel s0 r0 s1, bootstrap_election cap end_block fuel es s0 [] = (r0, [], s1) -> same_core s0 s1).
+    { induction fuel as [|fu IH]; intros s0 r0 s1 H; cbn [bootstrap_election] in H; [inversion H; apply same_core_refl|].
+      destruct (process_known_roots_core cap (roots_fuel s0) s0 (l_ldf s0 + 1)) as [SC _].
+      destruct (process_known_roots cap (roots_fuel s0) s0 (l_ldf s0 + 1)) as [[[[df atr]|]|x] s2]; cbn [fst snd] in *;
+        try (inversion H; subst; exact SC).
+      destruct (on_frame_decided end_block es s2 df atr) as [[[sealed blk]|x] s3] eqn:OF.
+      - destruct sealed; [inversion H|]. rewrite bootstrap_election_app in H.
+        destruct (bootstrap_election cap end_block fu es s3 []) as [[r2 new] s4]. inversion H.
+      - inversion H; subst. apply on_frame_decided_err in OF. subst. exact SC. }
+    destruct (G _ _ _ _ E) as (_&_&_&_&_&_&_&_&B9). rewrite B9. reflexivity. }
+  exists (l_fcc st'), (l_ctr st'), (l_el st'). split; [|split; [unfold elinv in I; congruence | exact Hv]].
+  destruct st, st'. cbn in *. subst. reflexivity.
+Qed.
+
 End Restart.
 
 (* the full statement of C08 over the model (NOT proved here: its election part is L1 of C01/C10,
